@@ -1594,6 +1594,18 @@ class LinearOperator(object):
         else:
             raise RuntimeError("Invalid arguments {} to expand.".format(sizes))
 
+        # Only singleton (or new leading) batch dimensions can be expanded
+        num_new_dims = len(shape) - self.dim()
+        if num_new_dims < 0 or any(
+            current not in (1, target) and target != -1
+            for current, target in zip(self.batch_shape, shape[num_new_dims:-2])
+        ):
+            raise RuntimeError(
+                "Invalid expand arguments {}: cannot expand a LinearOperator of size {}.".format(
+                    tuple(sizes), tuple(self.shape)
+                )
+            )
+
         res = self._expand_batch(batch_shape=shape[:-2])
         return res
 
@@ -2336,6 +2348,14 @@ class LinearOperator(object):
                         self.shape, right_tensor.shape
                     )
                 )
+        else:
+            _matmul_broadcast_shape(
+                self.shape,
+                right_tensor.shape,
+                error_msg="LinearOperator (size={}) cannot be multiplied with right-hand-side Tensor (size={}).".format(
+                    self.shape, right_tensor.shape
+                ),
+            )
 
         func = Solve
         if left_tensor is None:
